@@ -103,7 +103,10 @@ def cmd_run(ids, props):
     finally:
         restore(REPO)
     json.dump(res, open(os.path.join(HERE, "mutants", "last_run.json"), "w"), indent=1)
-    # restore the unchanged tree's evidence
+    # the evidence files were rewritten by the runs on mutated trees: regenerate them from the unchanged tree
+    bad = run_checks(ALL)
+    if bad:
+        print("WARNING: checks fire on the restored tree: %s" % sorted(bad))
     return res
 
 
